@@ -2,6 +2,7 @@ package main
 
 import (
 	"go/token"
+	"strings"
 
 	"golang.org/x/tools/go/ssa"
 )
@@ -260,5 +261,149 @@ func paramDeps(v ssa.Value) map[string]bool {
 		}
 	}
 	walk(v)
+	return out
+}
+
+// aliasUsesDeep is aliasUses that follows the value into repository callees:
+// a use "passed as argument i of g" is replaced by the uses of g's parameter i
+// (recursively); if g can return (an alias of) the parameter, the call's result
+// is followed in the caller as well.
+func (p *Prog) aliasUsesDeep(root ssa.Value) []use {
+	var out []use
+	type pk struct {
+		f *ssa.Function
+		i int
+	}
+	visitedParam := map[pk]bool{}
+	visitedVal := map[ssa.Value]bool{}
+	var walkVal func(v ssa.Value, depth int)
+	walkVal = func(v ssa.Value, depth int) {
+		if visitedVal[v] || depth > 6 {
+			return
+		}
+		visitedVal[v] = true
+		for _, u := range aliasUses(v) {
+			ci, isCall := u.In.(ssa.CallInstruction)
+			if !isCall || !strings.HasPrefix(u.Kind, "call:") {
+				out = append(out, u)
+				continue
+			}
+			cal := calleeOf(ci.Common())
+			if cal == nil || cal.Pkg == nil || !InRepo(cal.Pkg.Pkg.Path()) || len(cal.Blocks) == 0 {
+				out = append(out, u)
+				continue
+			}
+			for i, a := range ci.Common().Args {
+				if a != u.V || i >= len(cal.Params) {
+					continue
+				}
+				k := pk{cal, i}
+				if visitedParam[k] {
+					continue
+				}
+				visitedParam[k] = true
+				// uses inside the callee
+				n0 := len(out)
+				walkVal(cal.Params[i], depth+1)
+				// did the callee return it?
+				returned := false
+				var kept []use
+				for _, cu := range out[n0:] {
+					if cu.Kind == "return" && cu.In.Parent() == cal {
+						returned = true
+						continue
+					}
+					kept = append(kept, cu)
+				}
+				out = append(out[:n0], kept...)
+				if returned {
+					if cv, ok := u.In.(ssa.Value); ok {
+						walkVal(cv, depth+1)
+					}
+				}
+			}
+		}
+	}
+	walkVal(root, 0)
+	return out
+}
+
+// originsDeep is origins that looks through calls of repository functions:
+// the origins of a call result are the origins of what the callee returns
+// (a callee parameter maps back to the argument at this call).
+func (p *Prog) originsDeep(v ssa.Value) []ssa.Value {
+	var out []ssa.Value
+	seen := map[ssa.Value]bool{}
+	var walk func(v ssa.Value, frames []*ssa.Call, depth int)
+	walk = func(v ssa.Value, frames []*ssa.Call, depth int) {
+		if v == nil || depth > 8 {
+			return
+		}
+		for _, o := range origins(v) {
+			if seen[o] {
+				continue
+			}
+			seen[o] = true
+			switch x := o.(type) {
+			case *ssa.Call:
+				cal := calleeOf(&x.Call)
+				if cal != nil && cal.Pkg != nil && InRepo(cal.Pkg.Pkg.Path()) && len(cal.Blocks) > 0 && cal.Signature.Results().Len() == 1 {
+					n := 0
+					for _, b := range cal.Blocks {
+						for _, in := range b.Instrs {
+							if ret, ok := in.(*ssa.Return); ok && len(ret.Results) == 1 {
+								n++
+								walk(ret.Results[0], append(frames, x), depth+1)
+							}
+						}
+					}
+					if n > 0 {
+						continue
+					}
+				}
+				out = append(out, o)
+			case *ssa.Extract:
+				if c, ok := x.Tuple.(*ssa.Call); ok {
+					cal := calleeOf(&c.Call)
+					if cal != nil && cal.Pkg != nil && InRepo(cal.Pkg.Pkg.Path()) && len(cal.Blocks) > 0 {
+						n := 0
+						for _, b := range cal.Blocks {
+							for _, in := range b.Instrs {
+								if ret, ok := in.(*ssa.Return); ok && x.Index < len(ret.Results) {
+									n++
+									walk(ret.Results[x.Index], append(frames, c), depth+1)
+								}
+							}
+						}
+						if n > 0 {
+							continue
+						}
+					}
+				}
+				out = append(out, o)
+			case *ssa.Parameter:
+				// map back to the argument of the innermost frame that called this function
+				mapped := false
+				for i := len(frames) - 1; i >= 0; i-- {
+					fr := frames[i]
+					if calleeOf(&fr.Call) == x.Parent() {
+						for j, pa := range x.Parent().Params {
+							if pa == x && j < len(fr.Call.Args) {
+								walk(fr.Call.Args[j], frames[:i], depth+1)
+								mapped = true
+							}
+						}
+						break
+					}
+				}
+				if !mapped {
+					out = append(out, o)
+				}
+			default:
+				out = append(out, o)
+			}
+		}
+	}
+	walk(v, nil, 0)
 	return out
 }
